@@ -113,7 +113,7 @@ def c07_sweep(texts):
 
 # =================================================================================================
 # C12
-PLAIN = ['a', 'b', 'c', 'x', 'y', 'foo', 'bar', 't1', 'tbl', 'users', 'my_table', 'Über', 'naïve', '_z', 'k2', 'col9',
+PLAIN = ['a', 'b', 'c', 'x', 'y', 'emp#no', 'v$name', 'x#1', 'foo', 'bar', 't1', 'tbl', 'users', 'my_table', 'Über', 'naïve', '_z', 'k2', 'col9',
          'emp', 'dept', 'schema1', 'o', 'u', 'É', 'ßx']
 TRICKY_PLAIN = ['date', 'text', 'user', 'name', 'type', 'value', 'count', 'key', 'level', 'data', 'int', 'year', 'role',
                 'public', 'comment', 'id', 'character', 'order_', 'select1']
@@ -153,6 +153,8 @@ def c12_instance(rng, tricky=0.1):
             'kwcase': rng.choice(['lower', 'upper'])}
     if inst['context'] in NO_ALIAS_CONTEXTS:
         inst['alias'] = None
+    if inst['alias'] and inst['as'] and inst['alias']['style'] != 'plain' and rng.random() < 0.25:
+        inst['ws2'] = ''          # AS"alias" / AS`alias`: no whitespace is needed in front of a quoted alias
     return inst
 
 
@@ -681,7 +683,7 @@ def dml_ddl_keywords():
     return sorted(dml), sorted(ddl)
 
 
-PREFIXES = ['', '', '', ' ', '\n', '\t ', '/* c */', '/* c */ ', '-- c\n', ' -- c\n  ', '/* a */ /* b */\n', '--\n',
+PREFIXES = ['', '', '', ' ', '\n', '\t ', '/**/', '/**/ ', '/***/', '/* c */', '/* c */ ', '-- c\n', ' -- c\n  ', '/* a */ /* b */\n', '--\n',
             '/*+ hint */ ', '# c\n', '\r\n', '-- select\n', '/* create */']
 UNKNOWN_HEADS = ['explain', 'show', 'grant', 'revoke', 'begin', 'set', 'use', 'call', 'foo', '(select 1)', '1',
                  'values', 'vacuum', 'analyze', 'describe', 'declare', 'from', 'end', 'if', '"select"', 'exec']
